@@ -175,6 +175,84 @@ func cleanedHasUnlexable(t string) bool {
 	return false
 }
 
+// c08ModuleConsistency: the merger against the single-file entry point on one text. A file the modular parser rejects must make
+// the merge fail ("a syntax error in the input is always reported through the returned error" - the merger must not drop a
+// file it cannot read); when both succeed, every type, extension relation and condition the parser returned for the file is
+// in the merged model. The text is merged alone, after and before a valid module.
+func c08ModuleConsistency(ctx *core.Ctx, t string) {
+	var pm *openfgav1.AuthorizationModel
+	var exts map[string]*openfgav1.TypeDefinition
+	po := c08Call(func() (bool, error) {
+		var e error
+		pm, exts, e = transformer.TransformModularDSLToProto(t)
+		return pm != nil, e
+	})
+	if po.panic != nil || po.hang {
+		return // reported by the entry-point loop
+	}
+	sets := [][]transformer.ModuleFile{
+		{{Name: "a.fga", Contents: t}},
+		{{Name: "base.fga", Contents: validModule}, {Name: "a.fga", Contents: t}},
+		{{Name: "a.fga", Contents: t}, {Name: "base.fga", Contents: validModule}},
+	}
+	for si, files := range sets {
+		var mm *openfgav1.AuthorizationModel
+		mo := c08Call(func() (bool, error) {
+			var e error
+			mm, e = transformer.TransformModuleFilesToModel(files, "1.2")
+			return mm != nil, e
+		})
+		ctx.Eval(1)
+		cs := c08Case{Entry: "module-consistency", Text: t, N: si}
+		if !c08Judge(ctx, cs, mo) {
+			return
+		}
+		if po.err != nil {
+			ctx.Flag("c08:module-unreadable-file")
+			if mo.err == nil {
+				ctx.Violation("syntax-error-not-reported", fmt.Sprintf("module file %q is rejected by TransformModularDSLToProto (%v) but TransformModuleFilesToModel (set %d) succeeds without it", t, firstLine(po.err.Error()), si), cs, "merge error", "merge succeeded")
+				return
+			}
+			continue
+		}
+		if mo.err != nil || mm == nil {
+			continue
+		}
+		ctx.Flag("c08:module-merged")
+		have := map[string]*openfgav1.TypeDefinition{}
+		for _, td := range mm.GetTypeDefinitions() {
+			have[td.GetType()] = td
+		}
+		for _, td := range pm.GetTypeDefinitions() {
+			mt, ok := have[td.GetType()]
+			if !ok {
+				ctx.Violation("declaration-lost-in-merge", fmt.Sprintf("module file %q declares type %s; the merge (set %d) succeeds without it", t, td.GetType(), si), cs, "type in merged model", "absent")
+				return
+			}
+			for rn := range td.GetRelations() {
+				if _, ok := mt.GetRelations()[rn]; !ok {
+					ctx.Violation("declaration-lost-in-merge", fmt.Sprintf("module file %q declares relation %s#%s; the merge (set %d) succeeds without it", t, td.GetType(), rn, si), cs, "relation in merged model", "absent")
+					return
+				}
+			}
+		}
+		_ = exts
+		for cn := range pm.GetConditions() {
+			if _, ok := mm.GetConditions()[cn]; !ok {
+				ctx.Violation("declaration-lost-in-merge", fmt.Sprintf("module file %q declares condition %s; the merge (set %d) succeeds without it", t, cn, si), cs, "condition in merged model", "absent")
+				return
+			}
+		}
+	}
+}
+
+func firstLine(s string) string {
+	if i := strings.IndexByte(s, '\n'); i >= 0 {
+		return s[:i]
+	}
+	return s
+}
+
 func c08Text(ctx *core.Ctx, t string) {
 	ctx.Eval(1)
 	accepted := false
@@ -194,6 +272,7 @@ func c08Text(ctx *core.Ctx, t string) {
 			}
 		}
 	}
+	c08ModuleConsistency(ctx, t)
 	ctx.State(fmt.Sprintf("accepted=%v", accepted))
 	if ctx.WantSample() && len(t) > 60 && strings.Contains(t, "define") {
 		ctx.Sample(map[string]any{"kind": "lexeme string through the DSL and module entry points", "text": t, "accepted": accepted})
@@ -1049,6 +1128,7 @@ func c08RawText(ctx *core.Ctx, t string) {
 			c08Model(ctx, m, "parsed from "+fmt.Sprintf("%q", t), nil)
 		}
 	}
+	c08ModuleConsistency(ctx, t)
 }
 
 // c08RawBytes: every byte element inserted at every byte offset of every document prefix and of three complete documents
@@ -1384,7 +1464,7 @@ func c08Run(ctx *core.Ctx) {
 func init() {
 	core.Register(&core.Check{
 		ID: "C08",
-		Rule: "(a) every string of <= 3 lexemes over a 38-lexeme DSL alphabet (length 3 over a 30-lexeme alphabet in quick) appended to 10 valid document prefixes, through TransformDSLToProto/JSON, TransformModularDSLToProto and as member of 1- and 2-file module sets; accepted texts continue through printer and both graph builders; " +
+		Rule: "(a) every string of <= 3 lexemes over a 38-lexeme DSL alphabet (length 3 over a 30-lexeme alphabet in quick) appended to 10 valid document prefixes, through TransformDSLToProto/JSON, TransformModularDSLToProto and as member of 1- and 2-file module sets; accepted texts continue through printer and both graph builders; every text is also merged alone, after and before a valid module, and the merger must agree with the single-file parser (a file the parser rejects makes the merge fail; on success nothing the file declares is missing); " +
 			"every DSL text of the repository's shared test-data corpus with all its single mutations (each piece deleted, each of 30 lexemes inserted at each boundary; quick: for every 12th document); every string of <= 3/4 tokens over JSON and YAML token alphabets through TransformJSONStringToDSL / TransformModFile; every JSON value of two valid model documents replaced by 9 other JSON values. " +
 			"(b) fault enumeration on protobufs: every single and every pair (quick: pairs on the small base model) of degradations (pointer nil / empty, slice nil / empty-but-present / drop / nil element, map nil / empty-but-present / nil value / renamed key, string empty, oneof nil / nil payload, enum 0 / out of range) of five base models (one with every kind of restriction as first and as only entry of its list; two of them not DSL-expressible: every operator kind in every structural position with the direct assignment elsewhere; direct assignment in subtract and non-first positions, nested unary operators) through printer (both options), plain graph (+Reversed, GetDOT, GetCycles, PathExists) and weighted builder. " +
 			"(c) pumping: every fragment of <= 2 lexemes (thorough: + every 3rd 3-lexeme fragment) repeated n and 2n times (n = 32 / 64) in 10 insertion contexts; scaled model families through printer and both graph builders at n = 8, 16, 32, 64: four fixed shapes (computed chain, fan-in union, long restriction list, TTU cycle) and every cell family (n levels of two relations whose rewrites range over a 9 x 8 menu over the next level - computed, union / intersection / exclusion of both, direct assignment with usersets of the next level, TTU, the sibling - with the last level open or wrapped back to the first as one tuple cycle: 144 families incl. all diamond-shaped DAGs); the weighted builder additionally from every start node of its depth-first weight assignment (n <= 32 quick / 64 thorough), growth judged on the worst start node; nested pumping: open^n inner close^n for 12 open/close pairs (parentheses with and without operators on either side, doubled) x 6 inner rewrites x 4 prefixes at depth 16 and 32 (thorough 20 and 40); deterministic step counts from build-time instrumentation, growth exponent log2(S(2n)/S(n)) <= 2.5, horizon 5e7 steps. " +
@@ -1397,7 +1477,7 @@ func init() {
 		Technique: "bounded exhaustive enumeration of texts and of protobuf fault combinations with a panic guard and a deterministic step-count horizon",
 		Run:       c08Run,
 		Finish: func(r *core.Result) error {
-			for _, f := range []string{"c08:steps-live", "c08:some-error", "c08:some-result", "c08:unlexable-rejected", "c08:fault-enumeration", "c08:pumped", "c08:json-replacement", "c08:module-file-sets", "c08:corpus-mutations", "c08:scaled-families", "c08:scaled-accepted", "c08:scaled-rejected", "c08:start-orders", "c08:nested-pumped", "c08:nested-accepted", "c08:raw-bytes", "c08:raw-unlexable-rejected", "c08:raw-accepted", "c08:raw-pumped"} {
+			for _, f := range []string{"c08:steps-live", "c08:some-error", "c08:some-result", "c08:unlexable-rejected", "c08:fault-enumeration", "c08:pumped", "c08:json-replacement", "c08:module-file-sets", "c08:corpus-mutations", "c08:scaled-families", "c08:scaled-accepted", "c08:scaled-rejected", "c08:start-orders", "c08:nested-pumped", "c08:nested-accepted", "c08:raw-bytes", "c08:raw-unlexable-rejected", "c08:raw-accepted", "c08:raw-pumped", "c08:module-unreadable-file", "c08:module-merged"} {
 				if !r.Flags[f] {
 					return fmt.Errorf("C08: guard %q never exercised", f)
 				}
@@ -1420,6 +1500,8 @@ func init() {
 				if exp := math.Log2(float64(s2-s0) / float64(s1-s0)); exp > 2.5 {
 					ctx.Violation("super-quadratic", fmt.Sprintf("fragment %q: exponent %.2f", cs.Frag, exp), cs, "<= 2.5", fmt.Sprintf("%.2f", exp))
 				}
+			case cs.Entry == "module-consistency":
+				c08ModuleConsistency(ctx, cs.Text)
 			case cs.Entry == "scaled":
 				c08ScaledOne(ctx, cs.Mut)
 			case cs.Entry == "TransformJSONStringToDSL":
